@@ -163,7 +163,7 @@ example :
     let api : Api := ⟨"http://h".toList, some 0⟩
     let w : World := ⟨[[("X-A".toList, ["1".toList])]], [], [([], 0)]⟩
     let d : ApiDef := ⟨.body, "POST".toList, "u/{id}".toList, "application/json".toList⟩
-    let out := effect {} api d (envOf .none (some ("v".toList, 3))) [("id".toList, .int 7)] (some (.json "a".toList 1)) 0 w
+    let out := effect {} api d (envOf .none "ok76:3".toList) [("id".toList, .int 7)] (some (.json "a".toList 1)) 0 w
     out.1 = .resp none (some ("v".toList, 3)) ∧ (out.2.log.map (·.hdrAddr)) = [1] ∧ out.2.get 0 = w.get 0 ∧
       out.2.log.map (·.url) = ["http://h/u/7".toList] := by
   decide
@@ -193,9 +193,22 @@ theorem C17_decode_errors (env : Env) (tgt : Nat) (w : World) :
       decodeResponseBody true env (.ok bytes) tgt w = (.resp none (some t), w.setTarget tgt t)) := by
   refine ⟨fun e => rfl, fun bytes e h => ?_, fun bytes t h => ?_⟩ <;> simp [decodeResponseBody, h]
 
+/-- the deserializer is invoked on exactly the bytes that were read — also on a zero-byte body — so its verdict
+    on an empty body (the JSON deserializer's "unexpected end of JSON input", or an injected failure) surfaces -/
+theorem C17_decode_empty_body (env : Env) (tgt : Nat) (w : World) :
+    (decodeResponseBody true env (.ok []) tgt w).1 =
+      match (env.deser [] (w.target tgt)).1 with
+      | some t => .resp (env.deser [] (w.target tgt)).2 (some t)
+      | none => .resp (env.deser [] (w.target tgt)).2 none := by
+  unfold decodeResponseBody
+  cases h : (env.deser [] (w.target tgt)).1 <;> simp [h]
+
+example : (decodeResponseBody true (envOf .none "empty".toList) (.ok "empty".toList) 0 ⟨[], [], [("x".toList, 1)]⟩).1 =
+    .resp (some .json) (some ("x".toList, 1)) := by decide
+
 /-- the pinned code (`tempTarget.(*R)` without comma-ok) panics when the deserializer returns `(nil, err)` -/
 theorem C17_pinned_decoder_panics :
-    (decodeResponseBody false (envOf .dec none) (.ok []) 0 ⟨[], [], [([], 0)]⟩).1 = .panic := by decide
+    (decodeResponseBody false (envOf .dec "bad".toList) (.ok []) 0 ⟨[], [], [([], 0)]⟩).1 = .panic := by decide
 
 /-- passing DefaultHeader itself instead of a clone (`cloned := false`) lets the request's content type leak
     into DefaultHeader: the copy clause is not a formality -/
@@ -203,7 +216,7 @@ theorem C17_shared_header_refuted :
     let api : Api := ⟨"http://h".toList, some 0⟩
     let w : World := ⟨[[]], [], [([], 0)]⟩
     let d : ApiDef := ⟨.body, "POST".toList, "x".toList, "application/json".toList⟩
-    ((effect { cloned := false } api d (envOf .none none) [] none 0 w).2.get 0) ≠ w.get 0 := by
+    ((effect { cloned := false } api d (envOf .none "bad".toList) [] none 0 w).2.get 0) ≠ w.get 0 := by
   decide
 
 end FpgoVerif.C17
